@@ -155,7 +155,9 @@ func GenWorld(r *Rng, opts GenOpts, variantCount int) *WorldSpec {
 
 	// --- converter package
 	pkgName := Pick(r, []string{"conv", "converter", "c", "mapping"})
-	setupName := Pick(r, []string{"setup.go", "setup.go", "conv.go", "my.setup.go", "gen_setup.go"})
+	// names matter to path derivation: several dots, stems ending in characters
+	// of the extension, a stem that already contains ".gen", very short names
+	setupName := Pick(r, []string{"setup.go", "setup.go", "conv.go", "my.setup.go", "gen_setup.go", "catalog.go", "mapping.go", "geo.go", "a.go", "x.gen.go", "Setup-v2.go", "go.go"})
 	dir := "mod/" + pkgName
 	if opts.SetupName != "" {
 		setupName = opts.SetupName
